@@ -337,6 +337,8 @@ func worldOfStore(name string, st *store.ImmuStore, n int) *World {
 	return w
 }
 
+var forgedVal = []byte("forged") // value the adversary writes into a rewritten transaction
+
 // mix: chain headers follow base (content of base, PrevAlh/BlRoot recomputed); tree leaves k..m are taken from alt
 // (k > m: none). rewrite >= 1: transaction `rewrite` gets its first entry's value replaced (Eh recomputed).
 func mix(name string, base *World, alt *World, k, m, rewrite int) *World {
@@ -352,7 +354,7 @@ func mix(name string, base *World, alt *World, k, m, rewrite int) *World {
 		w.ents[id] = base.ents[id]
 		if id == rewrite {
 			es := append([]EntRec{}, base.ents[id]...)
-			es[0].Val = []byte("forged")
+			es[0].Val = append([]byte{}, forgedVal...)
 			es[0].HVal = sha256.Sum256(es[0].Val)
 			es[0].Dig = digestOf(h.Version, es[0].Key, es[0].MD, es[0].Val)
 			var ds []H
